@@ -15,6 +15,8 @@
 package moss
 
 import (
+	"bytes"
+
 	"github.com/couchbase/moss"
 )
 
@@ -30,6 +32,25 @@ type Iterator struct {
 }
 
 func (x *Iterator) Seek(seekToKey []byte) {
+	if x.err != nil || bytes.Compare(seekToKey, x.k) < 0 {
+		// Seeking backwards (or on an exhausted iterator): moss may have
+		// optimized the iterator down to the one segment that still had
+		// entries ahead, and that iterator's SeekTo would resurrect keys
+		// whose deletion is recorded in another segment.  Restart from
+		// the snapshot instead.
+		start := seekToKey
+		if bytes.Compare(start, x.start) < 0 {
+			start = x.start
+		}
+		iter, err := x.ss.StartIterator(start, x.end, moss.IteratorOptions{})
+		if err == nil {
+			_ = x.iter.Close()
+			x.iter = iter
+			x.k, x.v, x.err = x.iter.Current()
+			return
+		}
+	}
+
 	_ = x.iter.SeekTo(seekToKey)
 
 	x.k, x.v, x.err = x.iter.Current()
